@@ -7,6 +7,9 @@ package main
 //	conn <ids> | ev <id> l= s= p= | failc <tag> <k> | failp <tag> <k>  as in stream buf     -> ok
 //	enq <b> o=<0|1> e=<ids>       Enqueue of batch b (tags = running count of enqueued events) -> ok|busy
 //	chk <b> <pos> <err>           the check of position pos of batch b completes (err 0|6)  -> ok
+//	stopmid <b> <pos> 0           the result arrives and Stop() is called while the inserter is parked in
+//	                              the middle of handling it (inside HighestLamport); it is let go once
+//	                              Stop() has terminated the semaphore -> <trace> sem=<n>/<s> buf=<n>/<s>
 //	sync                          wait for the batches that can finish; prints the callback trace up
 //	                              to the last `done`                                        -> <trace>
 //	stop                          Stop()                       -> <trace> sem=<n>/<s> buf=<n>/<s>
@@ -84,6 +87,10 @@ type procRunner struct {
 	highest       idx.Lamport
 	stopped       bool
 	timedOut      bool
+	parkNext      bool          // park the inserter in its next HighestLamport call
+	parked        bool
+	unpark        chan struct{} // closed to let the parked inserter continue
+	midBatch      *pbatch       // the batch whose last result is handled while Stop() runs
 }
 
 // Lamport is the first thing process() asks of the event after HighestLamport(): it tells the harness
@@ -229,6 +236,15 @@ func (r *procRunner) Step(line string) string {
 				r.afterH = true
 				r.cur = -1
 				w.log("H")
+				if r.parkNext {
+					r.parkNext = false
+					r.parked = true
+					ch := r.unpark
+					r.cond.Broadcast()
+					r.mu.Unlock()
+					<-ch
+					r.mu.Lock()
+				}
 				r.cond.Broadcast()
 				return r.highest
 			},
@@ -307,7 +323,7 @@ func (r *procRunner) Step(line string) string {
 				for _, d := range b.delivered {
 					full = full && d
 				}
-				if full && !r.stopped { // an aborted task also calls done(): not a finished batch
+				if full && (!r.stopped || b == r.midBatch) { // an aborted task also calls done(): not a finished batch
 					r.dones++
 					w.log("D%d:%d/%d:%d/%d", b.id, sem.Num, sem.Size, tot.Num, tot.Size)
 				}
@@ -355,6 +371,79 @@ func (r *procRunner) Step(line string) string {
 			fn(nil)
 		}
 		return "ok"
+	case "stopmid":
+		b := r.batches[int(Atou(f[1]))]
+		pos := int(Atou(f[2]))
+		if b == nil || !b.accepted || pos >= b.n || b.delivered[pos] || r.stopped {
+			return "nobatch"
+		}
+		if !r.waitQuiet() {
+			return "timeout"
+		}
+		timer := time.AfterFunc(watchdog, func() {
+			r.mu.Lock()
+			r.timedOut = true
+			r.cond.Broadcast()
+			r.mu.Unlock()
+		})
+		defer timer.Stop()
+		r.mu.Lock()
+		for b.checked[pos] == nil && !r.timedOut {
+			r.cond.Wait()
+		}
+		fn := b.checked[pos]
+		if fn == nil {
+			r.mu.Unlock()
+			return "timeout"
+		}
+		b.delivered[pos] = true
+		// will the inserter start handling this result now? (ordered batches wait for the prefix)
+		s0, _ := r.expected()
+		willStart := s0 > r.starts
+		r.unpark = make(chan struct{})
+		r.parkNext = willStart
+		r.midBatch = b
+		r.mu.Unlock()
+		fn(nil)
+		if willStart {
+			r.mu.Lock()
+			for !r.parked && !r.timedOut {
+				r.cond.Wait()
+			}
+			r.mu.Unlock()
+		}
+		before := r.sem.Available()
+		r.mu.Lock()
+		r.stopped = true
+		r.mu.Unlock()
+		stopDone := make(chan struct{})
+		go func() {
+			r.proc.Stop()
+			close(stopDone)
+		}()
+		if willStart {
+			// Stop() has been entered once the semaphore is terminated; give it a moment to get to the
+			// point where it waits for the workers, then let the inserter go. Whatever the timing, the
+			// repository's Stop() yields the same trace (it clears the buffer after the workers exited).
+			for i := 0; i < 2000 && r.sem.Available() == before; i++ {
+				time.Sleep(time.Millisecond)
+			}
+			time.Sleep(25 * time.Millisecond)
+			close(r.unpark)
+		}
+		select {
+		case <-stopDone:
+		case <-time.After(watchdog):
+			r.mu.Lock()
+			r.timedOut = true
+			r.mu.Unlock()
+			return "timeout"
+		}
+		sem := r.sem.Processing()
+		tot := r.proc.TotalBuffered()
+		r.mu.Lock()
+		defer r.mu.Unlock()
+		return fmt.Sprintf("%s sem=%d/%d buf=%d/%d", w.takeTrace(), sem.Num, sem.Size, tot.Num, tot.Size)
 	case "sync":
 		if !r.waitQuiet() {
 			return "timeout"
@@ -493,6 +582,13 @@ func genProc(r *Rand, n int, tier string, w *bufio.Writer) {
 			}
 			planned = append(planned, d)
 		}
+		// sometimes the very last result (of the last batch) arrives while Stop() is being called
+		var mid *deliv
+		if cut >= nb-1 && len(planned[nb-1]) > 0 && r.Chance(1, 3) {
+			d := planned[nb-1][len(planned[nb-1])-1]
+			planned[nb-1] = planned[nb-1][:len(planned[nb-1])-1]
+			mid = &d
+		}
 		enq := 0
 		for {
 			var choices []int // batch indices with an undelivered planned result, -1 = enqueue the next batch
@@ -528,7 +624,11 @@ func genProc(r *Rand, n int, tier string, w *bufio.Writer) {
 				w.WriteString("sync\n")
 			}
 		}
-		w.WriteString("sync\nstop\n")
+		w.WriteString("sync\n")
+		if mid != nil {
+			fmt.Fprintf(w, "stopmid %d %d 0\n", mid.b, mid.pos)
+		}
+		w.WriteString("stop\n")
 		if r.Chance(1, 8) {
 			fmt.Fprintf(w, "enq %d o=0 e=%d\n", nb, evs[0].id)
 		}
